@@ -20,14 +20,20 @@ type DecNode struct {
 
 func (c Cfg) parseKey(raw []byte) (uint64, error) {
 	switch c.KK {
-	case "vk", "u64":
+	case "sk":
+		var v SK
+		if err := json.Unmarshal(raw, &v); err != nil {
+			return 0, err
+		}
+		return c.KeyNat(v.A), nil
+	case "vk", "u64", "uint":
 		var v uint64
 		err := json.Unmarshal(raw, &v)
 		if err == nil && strings.TrimSpace(string(raw)) == "null" {
 			err = errors.New("null key")
 		}
 		return v, err
-	case "i64":
+	case "i64", "int":
 		var v int64
 		err := json.Unmarshal(raw, &v)
 		if err == nil && strings.TrimSpace(string(raw)) == "null" {
